@@ -33,6 +33,16 @@ def nontrivial(pre, s):
     return None
 
 
+def variants(actions, n):
+    """plain / re-assigned (every third behaviour); behaviours that declare prefix p and later create a style rule are replayed a
+    second time with the style rules USING that namespace (a delete or re-binding of the declaration is then refused)"""
+    out = [{"reparse": True}] if n % 3 == 2 else [{}]
+    txt = json.dumps(actions[:-1])
+    if '"p=u' in txt and '"style"' in txt:
+        out.append({"nsuse": True})
+    return out
+
+
 def main(tier, seed):
     q = tier == "quick"
     run = Run("C09", tier, seed)
@@ -44,7 +54,7 @@ def main(tier, seed):
         "C09", tier, seed, run=run, machine="SheetDOM", mc_cfg="SheetDOM_%s.cfg" % tier, gen_cfg="SheetDOM_gen_%s.cfg" % tier,
         trace_module="SheetDOMTrace", adapter="adapters.sheetdom", sig=sig, corrupt=corrupt,
         tour_cap=25000 if q else 150000, n_walks=300 if q else 3000, walk_len=25 if q else 50, nontrivial=nontrivial,
-        variants=[{}, {}, {"reparse": True}],
+        variants=variants,
         rule="transition tour over the algorithm-layer machine (rule lists <=2 quick / <=3 thorough in the generation config) x every "
              "enabled edit: insertRule at every index incl. one past the end, ordered add, deleteRule, cssText and encoding "
              "assignment, nested @media/@page insert/add/delete; rules given as text and as objects; plus TLC-simulated walks; "
